@@ -319,6 +319,10 @@ def run(ctx):
     lits = sorted(set(seq_m) - {"<rewind>"})
     ctx.check(lits == sorted(["vertices  ", "edges  ", "faces  ", "bodies  ", "read"]), "CONST", f"{fl.qualname} / CONST / section markers", ctx.where(fl),
               f"{lits}", f"section markers are {lits}")
+    # a rewind before the first scan (fresh file) and repeated rewinds are no-ops
+    while seq_m and seq_m[0] == "<rewind>":
+        seq_m = seq_m[1:]
+    seq_m = [x for i, x in enumerate(seq_m) if not (x == "<rewind>" and i > 0 and seq_m[i - 1] == "<rewind>")]
     want = ["vertices  ", "edges  ", "<rewind>", "edges  ", "faces  ", "<rewind>", "faces  ", "bodies  ", "<rewind>", "bodies  ", "read"]
     ctx.check(seq_m == want, "PAIR", f"{fl.qualname} / PAIR / each section is delimited by its own marker and the next one, rewinding in between", ctx.where(fl),
               " -> ".join(want), f"scans run as {seq_m}")
